@@ -45,7 +45,16 @@ func ruleRecordingGuard(c *Ctx, ix *PkgIndex, rule string) {
 		good := false
 		for _, x := range g.Nodes {
 			if rs, ok := x.N.(*ast.ReturnStmt); ok && len(rs.Results) == 1 {
-				if call, ok := unparen(rs.Results[0]).(*ast.CallExpr); ok && isCallTo(info, call, "(time.Time).IsZero") {
+				// an even number of negations around the test cancels (!reached() with reached = !IsZero())
+				res, neg := unparen(rs.Results[0]), false
+				for {
+					u, isU := res.(*ast.UnaryExpr)
+					if !isU || u.Op != token.NOT {
+						break
+					}
+					res, neg = unparen(u.X), !neg
+				}
+				if call, ok := res.(*ast.CallExpr); ok && !neg && isCallTo(info, call, "(time.Time).IsZero") {
 					if recv, _ := methodCall(info, call); recv != nil && isField(info, recv, fEnd) {
 						good = true
 					}
